@@ -34,6 +34,54 @@ CHECKS = {
    note="Requests are issued at samlang_services' API (the LSP glue is not executed). Sweep work unit stays at production value; incremental "
         "sweeping itself is C17's. Positions are sampled in quick tier, exhaustive per column in thorough tier.",
    technique="TLA+ spec + TLC model checking of request preconditions; trace validation of edit/query histories recorded from the real server"),
+ "C02": dict(
+   level="translation_validation", design="§5 C02",
+   text="Rule level: Arith.tla (constant folder's table = the target's, every operand pair of a small range) and LoopRules.tla (the loop "
+        "optimiser's trip-count / final-value closed forms = iterating the loop, every init/step/bound/guard of a small range) are checked "
+        "exhaustively by TLC; both are bound to the code by compiling literal-operand programs and counting loops at the real 32-bit range. "
+        "Program level: every program is compiled from the un-optimised MIR ('raw'), under the 5 switches each alone / each one off (all 32 "
+        "in the thorough tier) and with every pass once in isolation (hook H3), run on both back ends, and Observations.tla (invariant C02) "
+        "accepts the record iff every build prints and ends like the reference, never crashes the compiler and never invalidates the module.",
+   note="Differential: the reference is the same compiler's un-optimised output; runs whose reference overflowed 32 bits or trapped on division are "
+        "excluded; TypeScript builds are compared only where the two back ends agree on the reference (otherwise C04's). Trusted: wasm_interp, ts_run.",
+   technique="TLA+ rule transcriptions checked exhaustively by TLC + recorded runs of compiled programs accepted by a TLA+ observation spec"),
+ "C03": dict(
+   level="exploration", design="§5 C03",
+   text="Observations.tla (invariant C03) accepts the recorded pipeline trace of every checker-accepted program iff no build crashed the compiler, "
+        "the emitted WebAssembly validates, the emitted TypeScript is syntactically valid, and both runs end in an allowed way (return, panic "
+        "with a non-empty message, Vec bounds, stack exhaustion, arithmetic trap) — never in an engine type fault nor in the empty-message panic "
+        "of an unhandled match. Programs: the repository's tests, and seeded type-directed generated programs over six profiles.",
+   note="Programs are sampled (generator + repository corpus); 'valid TypeScript' = type eraser accepts + node --check; trap classification by own WasmGC interpreter.",
+   technique="recorded compile-and-run traces of accepted programs judged by a TLA+ observation spec (TLC)"),
+ "C04": dict(
+   level="translation_validation", design="§5 C04",
+   text="Arith.tla puts the WebAssembly and TypeScript operator tables next to the language's definition; TLC checks both refine it for every "
+        "operand pair of a small range (outside the recorded Math.floor finding). One-operation programs with run-time operands over small and "
+        "32-bit boundary values are compiled and run on both back ends and judged by ArithTrace.tla at the real range; whole programs "
+        "(repository + generated) are judged by Observations.tla (invariant C04: same lines, same ending, unless implementation-defined).",
+   note="Open known finding: negative non-integral quotients (Math.floor), pinned by lir_tests.rs; generated programs stay out of that region, its witness "
+        "is replayed on every run. Excluded as implementation-defined: any run with an i32 overflow or a division trap. Trusted: wasm_interp, ts_run (loader.js transcribed).",
+   technique="TLA+ operator-table spec checked by TLC + trace validation of compiled runs at 32 bits"),
+ "C12": dict(
+   level="exploration", design="§5 C12",
+   text="Design level (TLC, exhaustive in small bounds): Sched.tla (temporary names from the shared atomic counter are distinct and fresh under every "
+        "interleaving; merged diagnostics render independently of completion order), Heap.tla's counter protocol, EnumLayout.tla (layout sound "
+        "under every processing order). Code level: every program (accepted and rejected) is compiled and run again in fresh processes with "
+        "RAYON_NUM_THREADS in {1,2,3,8,16}; Observations.tla (invariant C12) accepts iff verdict, rendered diagnostics and both back ends' "
+        "behaviour are identical across all repetitions.",
+   note="Hash seeds and schedules are sampled on the code (fresh processes), exhaustive only on the models.",
+   technique="TLA+ scheduling/layout models checked by TLC + repeated fresh-process runs judged by a TLA+ observation spec"),
+ "C07": dict(
+   level="model_checking", design="§5 C07",
+   text="Patterns.tla puts the matrix algorithm of pattern_matching.rs (specialisation, default matrix, signature completeness, usefulness, "
+        "counterexample construction) next to the semantic definitions (every value of the type up to pattern depth + 1 is matched by some arm); "
+        "TLC checks algorithm = semantics and counterexample soundness for every arm list up to a bound over seven type universes. Every "
+        "enumerated arm list is replayed through the real checker as a generated match / let / if-let, and PatternsTrace.tla decides — with the "
+        "specification's own Matches — that acceptance coincides with exhaustiveness, the reported counterexample denotes only unmatched values, "
+        "and if-let is flagged useless exactly when irrefutable.",
+   note="Bounded: seven fixed declaration sets, arm lists of <= 2-3 (quick) / 3-4 (thorough) patterns from generated pools. Disagreement between the "
+        "transcription and the checker's internals that does not change a verdict is MODEL-DRIFT.",
+   technique="TLA+ rule transcription + semantics checked exhaustively by TLC; every enumerated case replayed on the real checker and judged by a TLA+ trace spec"),
 }
 
 NOT_YET = "machinery for this property is not built yet in this round (see DESIGN.md §9 build order)"
